@@ -146,7 +146,7 @@ def canon_value(r):
 def run_aggregates(ctx, main):
     out_ = {}
     for name, cmd in AGG_COMMANDS:
-        st, out, err = lib.run_ledger(['-f', main] + cmd + ['--format', AGG if cmd[0] == 'reg' else '%(date)|-|%(account)|%(verif_rational(display_total))\n'])
+        st, out, err = lib.run_ledger(['-f', main] + cmd + ['--date-format', '%Y/%m/%d', '--format', AGG if cmd[0] == 'reg' else '%(date)|-|%(account)|%(verif_rational(display_total))\n'])
         rows = []
         for l in out.decode('utf-8', 'replace').split('\n'):
             f = l.split('|')
@@ -156,6 +156,37 @@ def run_aggregates(ctx, main):
                     rows.append((f[0], f[1], f[2], v))
         out_[name] = (st, sorted(rows))
     return out_
+
+
+def compare_group_dates(res, jid, xs, agg, main):
+    """the dates of the subtotal rows against the model of report_subtotal's loop (Model/Subtotal.v): every row of
+    `reg --subtotal` is dated with the earliest posting date and labelled with the latest; every row of a --by-payee
+    group (the payee being the account's last segment) with the earliest date of that group"""
+    items = []
+    for x in xs:
+        d = int(x.date.replace('/', ''))
+        for q in x.posts:
+            items.append([q.acct.split(':')[-1].encode(), d])
+    want = {}
+    for l in lib.run_model('C08', [lib.sx(['range', jid] + items)]):
+        f = l.split(' ')
+        if len(f) == 5 and f[1] == 'R' and f[3] != '-':
+            want[f[2] if f[2] == '*' else bytes.fromhex(f[2]).decode('utf-8', 'replace')] = (int(f[3]), int(f[4]))
+
+    def num(t):
+        return int(t.replace('/', '')) if re.fullmatch(r'\d{4}/\d\d/\d\d', t) else None
+    for (date, payee, acct, v) in agg['subtotal'][1]:
+        res.traces += 1
+        got = (num(date), num(payee[2:]) if payee.startswith('- ') else None)
+        if got != want.get('*'):
+            res.disagreements.append(dict(name='C08/subtotal-dates', case=main, impl=str(got), model=str(want.get('*')), text=open(main).read()[:3000]))
+            break
+    for (date, payee, acct, v) in agg['by-payee'][1]:
+        res.traces += 1
+        w = want.get(payee)
+        if w is None or num(date) != w[0]:
+            res.disagreements.append(dict(name='C08/group-dates', case=main, group=payee, impl=date, model=str(w), text=open(main).read()[:3000]))
+            break
 
 
 def run_variant(ctx, main):
@@ -302,6 +333,8 @@ def run(ctx, n_override=None):
                                                   impl=str((sorted(ib.items()), nrows))[:600], model=str((sorted(mb.items()), mn))[:600], err=err[-300:]))
             # aggregated registers against the base's
             agg = run_aggregates(ctx, main) if (vi == 0 or vi % 3 == 1) else None
+            if agg is not None:
+                compare_group_dates(res, 'j%dv%d' % (j, vi), xs, agg, main)
             if vi == 0:
                 ref_agg = agg
             elif agg is not None and kind != 'pperm':
